@@ -61,6 +61,21 @@ Theorem c20_scroll_init : forall req len, 1 <= scroll_init req len <= Nat.max (l
 Proof. exact scroll_init_in_range. Qed.
 Print Assumptions c20_scroll_init.
 
+(** "once preview activity settles": it does.  Without a further request every run of the previewer
+    (worker loop, child, waiter, in any order) is at most [prank s] steps long -- six per queued
+    request, five for a request in the worker's hands, two for a running child -- and a state that is
+    not settled always has a step other than a new request (the exit of a running child is one: the
+    preview command is assumed to terminate; everything else is the previewer's own).  So activity
+    after the last request ends, in a settled state, where c20_settled_latest applies. *)
+Theorem c20_settles_bounded : forall ls s s',
+  Forall nosend ls -> prun s ls = Some s' -> List.length ls + prank s' <= prank s.
+Proof. exact settles_bounded. Qed.
+Print Assumptions c20_settles_bounded.
+
+Theorem c20_unsettled_enabled : forall s, ~ psettled s -> exists l s', nosend l /\ pstep s l = Some s'.
+Proof. exact unsettled_enabled. Qed.
+Print Assumptions c20_unsettled_enabled.
+
 (** Non-vacuity: request 0 (command) is overtaken while its child runs: killed, dropped; requests
     1 and 2 arrive together, 1 is skipped; request 2's child exits by itself and is shown. *)
 Example c20_example :
